@@ -1250,11 +1250,52 @@ class Gen:
             chain.append(r.choice([{"f": "sparsify", "c": False, "a": True}, {"f": "flatten"}, {"f": "finalize"}]))
         return {"stream": stream, "chain": chain, "via": r.wchoice([(60, "filters"), (15, "pipes"), (25, "shortcuts")]), "delivery": "lazy"}
 
+    LAYOUTS = ["sim-list", "sim-fn", "igl-fn", "igl-list", "logged", "logged-noactions", "logged-rewards"]
+
+    def layout_params(self, P, layout):
+        """the stream parameters of one member layout: which keys its interactions carry (simulated / IGL / logged, with or without an
+        action set, rewards and feedbacks as sequences or functions, with or without a context value)"""
+        Pj = dict(P)
+        Pj["kind"] = "sim" if layout.startswith("sim") else "igl" if layout.startswith("igl") else "logged"
+        Pj["callable_class"] = layout in ("sim-fn", "igl-fn", "logged-rewards")
+        Pj["fb_callable"] = layout == "igl-fn"
+        Pj["has_actions"] = layout != "logged-noactions"
+        Pj["with_rewards"] = layout == "logged-rewards"
+        if self.r.chance(0.4):
+            Pj["csc"] = ("none",)
+        return Pj
+
+    def layout_collection(self, P=None):
+        """one Environments object whose members have different LAYOUTS (a simulated, an IGL, a logged environment …) over one action
+        schema; one or two shortcuts applied to the collection; every member must come out as a fresh pipeline on it alone gives it"""
+        r = self.r
+        if P is None:
+            sc = r.choice([("cat", r.shuffle(LEVELS)[:r.randint(2, 4)]), ("dense", "t", [("c", r.shuffle(LEVELS)[:3]), ("n",)]), self.plain_sparse_schema(),
+                           ("dense", "t", [("n",), ("nest", "t", [("n",), ("s",)])]), ("num",), ("str",)])
+            P = {"sc": sc, "csc": self.schema(True), "k": r.choice([2, 3, 3]), "mode": r.choice(["repeat", "fresh"]), "force": "same"}
+        layouts = r.shuffle(self.LAYOUTS)[:r.choice([2, 2, 3])]
+        members = [self.build_stream(self.layout_params(P, lay), r.choice([1, 2, 3])) for lay in layouts]
+        steps = [{"f": "repr", "cc": r.choice(MODES), "ca": r.choice(MODES[1:])}, {"f": "repr", "cc": "onehot", "ca": "onehot"}, {"f": "flatten"},
+                 {"f": "sparsify", "c": r.chance(0.5), "a": True}, {"f": "densify", "n": 30, "m": r.choice(["lookup", "hashing"]), "c": r.chance(0.5), "a": True},
+                 {"f": "noise", "c": None, "a": {"kind": "fn", "mul": 1, "add": 10}, "seed": 1}, {"f": "cycle", "after": 0}, {"f": "finalize"}]
+        chain = [r.choice(steps)]
+        if r.chance(0.35):
+            chain.append(r.choice(steps))
+        order = r.shuffle(list(range(len(members))))
+        if r.chance(0.3):
+            order.append(r.choice(order))
+        out = {"stream": members[0], "more": members[1:], "chain": chain, "via": "shortcuts", "collection": True, "read_order": order}
+        if r.chance(0.3):
+            out["delivery"] = "lazy"
+        return out
+
     def collection_case(self, P, case):
         """one Environments object with 2-3 member environments over different feature vocabularies; the shortcuts are applied to the
         collection and the members are read one after the other, in a PRNG order (sometimes a member twice)"""
         r = self.r
         members = []
+        if r.chance(0.4):
+            return self.layout_collection(P if r.chance(0.5) else None)
         sparse = r.chance(0.75)
         if sparse and r.chance(0.5):
             return self.indicator_collection(P, case)
@@ -1265,6 +1306,8 @@ class Gen:
                 Pj["csc"] = self.plain_sparse_schema() if r.chance(0.4) else ("num",)
                 Pj["has_actions"], Pj["mode"] = True, r.choice(["repeat", "fresh"])
                 Pj["k"] = r.choice([2, 3, 4])
+            if r.chance(0.4):
+                Pj = self.layout_params(Pj, r.choice(self.LAYOUTS))
             members.append(self.build_stream(Pj, r.choice([1, 2, 3])))
         chain = [st for st in case["chain"] if st["f"] not in ("batch", "unbatch")] or [{"f": "flatten"}]
         if sparse and r.chance(0.7):
@@ -1416,7 +1459,7 @@ class C10(Property):
     def search(self, rng, tier):
         g = Gen(rng)
         if rng.chance(0.3):
-            return g.indicator_collection(None, None) if rng.chance(0.5) else g.long_repr_case() if rng.chance(0.5) else g.case(tier)
+            return g.indicator_collection(None, None) if rng.chance(0.35) else g.layout_collection() if rng.chance(0.5) else g.long_repr_case() if rng.chance(0.5) else g.case(tier)
         focus = rng.choice([
             lambda g: {"f": "repr", "cc": g.r.choice(MODES), "ca": g.r.choice(MODES[1:])},
             lambda g: {"f": "sparsify", "c": g.r.chance(0.5), "a": True},
@@ -1504,6 +1547,20 @@ class C10(Property):
                 rows = [{kind: [V_n(i + j) for j in range(nlev)]} for i in range(2)]
                 cs.append({"stream": [{"context": None, "actions": rows, "rewards": {"k": "binary", "argmax": rows[1], "value": [1, 1]}}],
                            "chain": [{"f": "flatten"}, {"f": "finalize"}], "via": "filters"})
+        # one Environments object with a simulated, an IGL and a logged member (different layouts), every shortcut, both reading orders
+        cA, cB, cC = ({"c": x, "L": ["a", "b", "c"]} for x in "abc")
+        acts3 = [cA, cB, cC]
+        m_sim = [{"context": cA, "actions": acts3, "rewards": {"k": "list", "v": [[1, 1], [2, 1], [3, 1]]}} for _ in range(2)]
+        m_igl = [{"context": None, "actions": acts3, "rewards": {"k": "list", "v": [[1, 1], [2, 1], [3, 1]]},
+                  "feedbacks": {"k": "fn", "table": [[cA, [0, 1]], [cB, [0, 1]], [cC, [2, 1]]], "default": FN_DEFAULT}} for _ in range(2)]
+        m_log = [{"context": cB, "actions": acts3, "action": cC, "reward": [1, 2], "probability": [1, 4]} for _ in range(2)]
+        m_fn = [{"context": None, "actions": acts3, "rewards": {"k": "binary", "argmax": cB, "value": [1, 1]}} for _ in range(2)]
+        for st in ({"f": "repr", "cc": "onehot", "ca": "onehot"}, {"f": "repr", "cc": None, "ca": "onehot_tuple"}, {"f": "repr", "cc": "string", "ca": "string"},
+                   {"f": "flatten"}, {"f": "sparsify", "c": True, "a": True}, {"f": "densify", "n": 8, "m": "lookup", "c": True, "a": True},
+                   {"f": "noise", "c": None, "a": {"kind": "fn", "mul": 1, "add": 1}, "seed": 1}, {"f": "cycle", "after": 0}, {"f": "finalize"}):
+            for order in ([0, 1, 2, 3], [3, 2, 1, 0], [1, 0, 2, 1]):
+                cs.append({"stream": _copy(m_sim), "more": [_copy(m_igl), _copy(m_log), _copy(m_fn)], "chain": [st], "via": "shortcuts",
+                           "collection": True, "read_order": order})
         # batched pipelines whose batched reward / feedback functions are exercised through the call protocol
         A2, B2 = ({"c": x, "L": ["a", "b"]} for x in "ab")
         for ch in ([{"f": "batch", "n": 2}], [{"f": "batch", "n": 2}, {"f": "repr", "cc": None, "ca": "onehot"}], [{"f": "batch", "n": 3}, {"f": "sparsify", "c": False, "a": True}],
